@@ -95,8 +95,9 @@ def run_jobs(jobs, njobs, progress=None, wall=None):
     for idx, j in enumerate(jobs):
         groups.setdefault((j['hclass'], j['prop'], j['batch']), []).append(idx)
     for (hc, prop, batch), idxs in groups.items():
-        for k in range(0, len(idxs), CHUNK):
-            queues[hc].put((idxs[k:k + CHUNK], prop, batch))
+        size = jobs[idxs[0]].get('chunk') or CHUNK  # a batch of very cheap runs may ask for larger chunks (batch key 'chunk')
+        for k in range(0, len(idxs), size):
+            queues[hc].put((idxs[k:k + size], prop, batch))
     results = [None] * len(jobs)
     t0 = time.monotonic()
     stop = threading.Event()
@@ -147,7 +148,8 @@ def check(prop, tier, seed, njobs):
     for b, batch in enumerate(P['batches']):
         n = batch['runs'][tier]
         for i in range(n):
-            jobs.append(dict(id=len(jobs), prop=prop, batch=b, seed=derive_seed(seed, prop, b, i), hclass=i % HCLASSES))
+            jobs.append(dict(id=len(jobs), prop=prop, batch=b, seed=derive_seed(seed, prop, b, i), hclass=i % HCLASSES,
+                             chunk=batch.get('chunk')))
     wall = P.get('wall', {}).get(tier, 120 if tier == 'quick' else 1500)
     results, servers = run_jobs(jobs, njobs, wall=wall)
     try:
@@ -349,6 +351,11 @@ def main(argv=None):
     c.add_argument('--tier', default=os.environ.get('VERIF_TIER', 'quick'), choices=['quick', 'thorough'])
     r = sub.add_parser('replay')
     r.add_argument('path')
+    rn = sub.add_parser('run', help='one run, printed (debugging)')
+    rn.add_argument('prop')
+    rn.add_argument('batch', type=int)
+    rn.add_argument('index', type=int)
+    rn.add_argument('--run-seed', type=int, default=None)
     st = sub.add_parser('selftest')
     st.add_argument('what', choices=['determinism', 'mutants'])
     st.add_argument('props', nargs='*')
@@ -362,6 +369,17 @@ def main(argv=None):
         return check(a.prop, a.tier, seed, njobs)
     if a.cmd == 'replay':
         return replay(a.path)
+    if a.cmd == 'run':
+        rs = a.run_seed if a.run_seed is not None else derive_seed(seed, a.prop, a.batch, a.index)
+        s = Server(a.index % HCLASSES)
+        try:
+            r = s.call(dict(id='run', prop=a.prop, batch=a.batch, seed=rs, keep=True))
+        finally:
+            s.close()
+        for l in r.get('ops') or []:
+            print('  ', l)
+        print({k: v for k, v in r.items() if k not in ('ops', 'sample', 'choices')})
+        return 0
     if a.cmd == 'selftest':
         sys.path.insert(0, ROOT)
         from sim import selftest
